@@ -265,8 +265,8 @@ func propTable() map[string]PropSpec {
 				}
 			}
 		}
-		for _, sc := range []int64{1465646, 1475747, 12479317, 14787, 124797967, 1247379, 146146, 1456757, 14707, 1470709, 10476} {
-			script = append(script, []int64{sc, 2}, []int64{sc, 1})
+		for _, sc := range []int64{1465646, 1475747, 12479317, 14787, 124797967, 1247379, 146146, 1456757, 14707, 1470709, 10476, 124731797, 1247317979} {
+			script = append(script, []int64{sc, 2}, []int64{sc, 1}, []int64{sc, 3})
 		}
 		return []TaskSpec{
 			{Harness: "HarnessMuxWriteData", ArgSets: wd, Reach: []string{"mux.writedata.end"}, Asserts: prefixes},
@@ -279,7 +279,7 @@ func propTable() map[string]PropSpec {
 		}
 	}
 	muxBounds := map[string]string{
-		"quick":    "one inductive step from an arbitrary valid Muxer state (0..2 streams; every counter, version, dirty flag and the retransmit counter symbolic under the stated invariant; retransmit period 1 and 3) for each of the 8 operations with symbolic arguments, invariant re-checked after the step; all operation histories of length <= 3 from NewMuxer over {Add explicit/auto, Remove, SetPCRPID, WriteTables, WriteData (2 PIDs, with/without AF, 1 or 190 payload bytes), WriteData with an oversized AF, WritePacket 184/185 bytes}; 8 scripted histories of 5-9 operations around failed table emissions and remove/re-add; WriteData with first-packet AF {none, PCR+RAI, private data+RAI, 175-byte private data} x timestamps {none, PTS+DTS} x 18 payload lengths around the 184-byte boundaries (1..372) x {first call, later call}, symbolic PID/stream type/payload/timestamps/PCR; 18 units and 34 content changes for counter/version wrap-around; configured retransmit periods {1,2,39,40,41,42,43,50} driven for p+2 calls; two units of 65527/65528/65530/65535/65536 payload bytes (audio and video stream ids) around the PES_packet_length limit; WritePacket with adaptation fields {none, PCR+stuffing, one-byte, private data} and payloads fitting exactly / 1 / 2 bytes over; every output is also demultiplexed by the real Demuxer (C01)",
+		"quick":    "one inductive step from an arbitrary valid Muxer state (0..2 streams; every counter, version, dirty flag and the retransmit counter symbolic under the stated invariant; retransmit period 1 and 3) for each of the 8 operations with symbolic arguments, invariant re-checked after the step; all operation histories of length <= 3 from NewMuxer over {Add explicit/auto, Remove, SetPCRPID, WriteTables, WriteData (2 PIDs, with/without AF, 1 or 190 payload bytes), WriteData with an oversized AF, WritePacket 184/185 bytes}; 13 scripted histories of 5-10 operations around failed table emissions, remove/re-add and writes interleaved over two PIDs after a re-add, each with retransmit periods 1, 2 and 3; WriteData with first-packet AF {none, PCR+RAI, private data+RAI, 175-byte private data} x timestamps {none, PTS+DTS} x 18 payload lengths around the 184-byte boundaries (1..372) x {first call, later call}, symbolic PID/stream type/payload/timestamps/PCR; 18 units and 34 content changes for counter/version wrap-around; configured retransmit periods {1,2,39,40,41,42,43,50} driven for p+2 calls; two units of 65527/65528/65530/65535/65536 payload bytes (audio and video stream ids) around the PES_packet_length limit; WritePacket with adaptation fields {none, PCR+stuffing, one-byte, private data} and payloads fitting exactly / 1 / 2 bytes over; every output is also demultiplexed by the real Demuxer (C01)",
 		"thorough": "states with up to 3 streams, all WriteData variants in the step, histories of length 4, timestamps {none, PTS, PTS+DTS}",
 	}
 	muxOutside := "more than 3 streams; ES/program descriptors in the PMT (the PMT-larger-than-one-packet rejection is not exercised); payloads longer than 372 bytes including PES_packet_length > 65535 (writePESHeader's length rule is covered for all sizes in C12); histories longer than 4 other than through the inductive step and the scripts"
